@@ -24,7 +24,7 @@ func newDBM(n int) *DBM {
 	return d
 }
 
-func (d *DBM) clone() *DBM         { return &DBM{n: d.n, m: append([]int64(nil), d.m...)} }
+func (d *DBM) clone() *DBM        { return &DBM{n: d.n, m: append([]int64(nil), d.m...)} }
 func (d *DBM) get(i, j int) int64 { return d.m[i*d.n+j] }
 
 // le adds the constraint x_i - x_j <= c and restores closure incrementally.
